@@ -110,10 +110,17 @@ def gen_scenario(batch_seed, i, tier):
     threads = [[] for _ in range(nthreads)]
     makes = []
     counter = 0
+    # focus: many operations of ONE serialiser kind on few symbols with varied options (sequential histories and
+    # some threaded runs) -- state leaking inside one writer needs two related calls of that writer to show
+    focus = rng.choice(opts.KINDS) if (sequential and rng.random() < 0.6) or (not sequential and rng.random() < 0.15) else None
+    if focus and sequential:
+        nops = rng.randint(8, 20)
     for t in range(nthreads):
         for k in range(nops if nops else rng.randint(1, 4)):
             name = 't%do%d' % (t, k)
             r = rng.random()
+            if focus and len(makes) >= (2 if rng.random() < 0.8 else 3):
+                r = 0.5
             if not makes or r < 0.35:
                 spec = ops.gen_make(rng, 's%d' % counter, small=small)
                 if makes and rng.random() < 0.3:
@@ -122,6 +129,17 @@ def gen_scenario(batch_seed, i, tier):
                 makes.append(spec)
             elif r < 0.9:
                 spec = ops.gen_use(rng, rng.choice(makes), name)
+                earlier = [o for th in threads for o in th if o['op'] in ('save', 'uri', 'miter', 'terminal')]
+                if focus:
+                    m0 = rng.choice(makes)
+                    if m0['fn'] == 'make_sequence' and focus == 'pdf':
+                        m0 = makes[0]
+                    spec = {'op': 'save', 'sym': m0['id'], 'symspec': {'fn': m0['fn'], 'content': m0['content'], 'kw': m0['kw']}, 'name': name,
+                            'kind': focus, 'skw': core.enc(opts.gen_ser_opts(rng, focus, cli=False)),
+                            'route': 'path' if (m0['fn'] == 'make_sequence' and focus == 'pdf') else rng.choice(('stream', 'path'))}
+                    earlier = [o for o in earlier if o['op'] == 'save']
+                if earlier and rng.random() < (0.6 if focus else 0.35):
+                    spec = ops.vary_use(rng, rng.choice(earlier), spec, makes)
             else:
                 spec = ops.gen_cli(rng, name)
             threads[t].append(spec)
